@@ -4,7 +4,9 @@ Real code: furax.projections.create_projection_operator, furax.instruments.sat.c
 (the operator as built is captured just before its .reduce()), (P.T @ P).reduce(), on HEALPix
 landscapes of nside 1, 2, 4, the four Stokes kinds, 1-3 detectors with 1-3 directions each, 1-6 samples,
 integer sky maps holding distinct primes.  Everything runs in worker subprocesses
-(`python c16.py --worker`) with JAX_ENABLE_X64=1 (a few float32 cases with x64 disabled).
+(`python c16.py --worker`) with JAX_ENABLE_X64=1 (a few float32 cases with x64 disabled, and float32 landscapes with x64
+enabled: single-precision maps, double-precision pointing).  Position angles of both signs and beyond one turn, detectors off the
+boresight axis (one on the axis in half of the cases), detector plane at z = 0.5, 1, 2.
 
 Model: coq/theories/Model/Acquisition.v (run_acq: exact rationals) fed with the IMPLEMENTATION's own pixel
 table and with cos/sin of twice the position angles computed here in float64; the model of reduce()
@@ -12,10 +14,16 @@ table and with cos/sin of twice the position angles computed here in float64; th
 Comparison within the stated tolerance (the code evaluates trig functions): 1e-9 (x64), 1e-5 (float32),
 relative to the largest map value.
 
-Oracle (independent of the model): the closed NumPy formulas of the property, dense matrices included.
+Oracle (independent of the model AND of the translator: it runs whether or not the translator accepts the source): the closed
+NumPy formulas of the property, dense matrices included, and - for every case - the implementation's pixel table against the
+independent pointing model (float64 NumPy Rz(phi).Ry(theta).Rz(psi) as a product of elementary rotations + healpy); a differing
+entry is a failure unless the implementation's pixel lies within 1e-9 rad (x64) of the reference direction.
 
-extra(): numerical cross-check (testing, not proof) of the unproved clause - the pixel table against an
-independent NumPy Rz.Ry.Rz + healpy.vec2pix / ang2pix (ring ordering).
+extra(): numerical cross-check (testing, not proof) of the unproved clause at scale - the pixel table against the same independent
+pointing model for nside 1..8192 (pixel numbers above 2**24 from nside 2048), float32 and float64 landscapes, x64 enabled and
+disabled, off-axis detector layouts, psi over (-2 pi, 2 pi), with directions aimed a few 1e-9..1e-8 rad inside pixel borders (a
+float32 round trip of the direction flips those, float64 arithmetic does not) - see pointing_batch.  Failures are VIOLATIONs with a
+one-sample 'pointing' replay.
 """
 from __future__ import annotations
 
@@ -72,8 +80,17 @@ def trig(case):
     return np.cos(2 * pa), np.sin(2 * pa)
 
 
+def single_precision(case):
+    """Are the map values held in float32 (x64 disabled, or a float32 landscape)?"""
+    return not case.get('x64', True) or case.get('dtype', 'float64') == 'float32'
+
+
+def rtol(case):
+    return 1e-5 if single_precision(case) else 1e-9
+
+
 def tolerance(case):
-    return (1e-9 if case.get('x64', True) else 1e-5) * (_PR[len(case['stokes']) * map_size(case)] + 1)
+    return rtol(case) * (_PR[len(case['stokes']) * map_size(case)] + 1)
 
 
 # ----------------------------------------------------------------------------------------------
@@ -147,6 +164,13 @@ def impl_case(case):
         table = np.asarray(idx[0].indices[0])
         obs['pix'] = table.ravel().tolist()
         obs['tod_shape'] = list(table.shape)
+        # the independent pointing model (float64 NumPy + healpy) for the same table
+        v = reference_directions(case['theta'], case['phi'], case['pa'], case['det_x'], case['det_y'], case.get('det_z', 1.0))
+        if table.size == v[..., 0].size:
+            bad, boundary, exp, exp2 = compare_table(case['nside'], table.reshape(v.shape[:-1]), v, case.get('x64', True))
+            obs['ref_pix'] = exp.ravel().tolist()
+            obs['pix_mismatch'] = np.flatnonzero((bad & ~boundary).ravel()).tolist()
+            obs['pix_boundary'] = int((bad & boundary).sum())
         obs['proj_names'] = op_names(P)
         obs['proj'] = leaves(P(sky))
         obs['proj_shape'] = [list(leaf.shape) for leaf in jax.tree.leaves(P.out_structure())]
@@ -200,29 +224,134 @@ def impl_case(case):
 
 
 # ----------------------------------------------------------------------------------------------
-# independent pointing computation (NumPy + healpy), used by extra() and by 'pointing' replays
+# independent pointing computation (NumPy + healpy, float64), used by the acquisition cases (every pixel
+# table is compared with it), by extra() and by 'pointing' replays
+
+EPS64 = 1e-9  # rad: x64 enabled - rotation, vec2dir and the HEALPix lookup run in float64 whatever the map dtype
+EPS32 = 2e-6  # rad: x64 disabled - the whole pointing runs in float32 (the angles are given as float32 values); near the poles
+# the float32 rounding of z = cos(theta) (vec2dir: arccos(z / r); jax_healpy: 1 - |z|) moves the colatitude by up to 2**-22 / sin(theta)
+DELTAS = (4e-9, 1e-8, 2.5e-8)  # rad: distances from a pixel border of the 'border' directions (x64 only)
 
 
-def reference_directions(theta, phi, pa, det_x, det_y, det_z):
-    """Unit vectors R_z(phi) R_y(theta) R_z(pa) d for every detector direction d and sample:
-    array (ndet, ndir, nsamp, 3)."""
+def boundary_eps(x64, v=None):
+    """Angular distance (rad) within which a pixel of the implementation other than the reference pixel is attributed to rounding
+    (a scalar, or one value per direction of v)."""
+    import numpy as np
+
+    if x64:
+        return EPS64 if v is None else np.full(np.asarray(v).reshape(-1, 3).shape[0], EPS64)
+    if v is None:
+        return EPS32
+    v = np.asarray(v, dtype=np.float64).reshape(-1, 3)
+    return EPS32 + 2.0**-22 / np.maximum(np.hypot(v[:, 0], v[:, 1]), 2.0**-11.5)
+
+
+def _rz(a):
+    import numpy as np
+
+    c, s, o, z = np.cos(a), np.sin(a), np.ones_like(a), np.zeros_like(a)
+    return np.stack([np.stack([c, -s, z], -1), np.stack([s, c, z], -1), np.stack([z, z, o], -1)], -2)
+
+
+def _ry(a):
+    import numpy as np
+
+    c, s, o, z = np.cos(a), np.sin(a), np.ones_like(a), np.zeros_like(a)
+    return np.stack([np.stack([c, z, s], -1), np.stack([z, o, z], -1), np.stack([-s, z, c], -1)], -2)
+
+
+def unit_directions(det_x, det_y, det_z):
     import numpy as np
 
     x = np.asarray(det_x, dtype=np.float64)
     y = np.asarray(det_y, dtype=np.float64)
     z = np.broadcast_to(np.float64(det_z), x.shape)
     d = np.stack([x, y, z], axis=-1)
-    d = d / np.linalg.norm(d, axis=-1, keepdims=True)
-    out = np.empty(d.shape[:2] + (len(theta), 3))
-    for t, (th, ph, ps) in enumerate(zip(theta, phi, pa)):
-        rz1 = np.array([[math.cos(ph), -math.sin(ph), 0], [math.sin(ph), math.cos(ph), 0], [0, 0, 1]])
-        ry = np.array([[math.cos(th), 0, math.sin(th)], [0, 1, 0], [-math.sin(th), 0, math.cos(th)]])
-        rz3 = np.array([[math.cos(ps), -math.sin(ps), 0], [math.sin(ps), math.cos(ps), 0], [0, 0, 1]])
-        out[:, :, t, :] = d @ (rz1 @ ry @ rz3).T
-    return out
+    return d / np.linalg.norm(d, axis=-1, keepdims=True)
 
 
-def implementation_table(nside, theta, phi, pa, det_x, det_y, det_z):
+def reference_directions(theta, phi, pa, det_x, det_y, det_z):
+    """Unit vectors R_z(phi_t) R_y(theta_t) R_z(pa_t) d for every detector direction d and sample t, as the product
+    of the three elementary rotations: array (ndet, ndir, nsamp, 3)."""
+    import numpy as np
+
+    th, ph, ps = (np.asarray(a, dtype=np.float64) for a in (theta, phi, pa))
+    rot = _rz(ph) @ _ry(th) @ _rz(ps)  # (nsamp, 3, 3)
+    return np.einsum('tij,dmj->dmti', rot, unit_directions(det_x, det_y, det_z))
+
+
+def reference_pixels(nside, v):
+    """Two float64 HEALPix lookups (ring ordering) of unit vectors: healpy.vec2pix and healpy.ang2pix."""
+    import healpy as hp
+    import numpy as np
+
+    exp = hp.vec2pix(nside, v[..., 0], v[..., 1], v[..., 2])
+    exp2 = hp.ang2pix(nside, np.arccos(np.clip(v[..., 2], -1, 1)), np.arctan2(v[..., 1], v[..., 0]))
+    return np.asarray(exp, dtype=np.int64), np.asarray(exp2, dtype=np.int64)
+
+
+def displaced(v, eps, k=16):
+    """The k unit vectors at angular distance eps around every v (v: (n, 3)) -> (k, n, 3)."""
+    import numpy as np
+
+    v = np.asarray(v, dtype=np.float64).reshape(-1, 3)
+    eps = np.reshape(np.asarray(eps, dtype=np.float64), (-1, 1))
+    axis = np.eye(3)[np.argmin(np.abs(v), axis=1)]
+    e1 = np.cross(v, axis)
+    e1 /= np.linalg.norm(e1, axis=1, keepdims=True)
+    e2 = np.cross(v, e1)
+    out = []
+    for a in np.arange(k) * (2 * np.pi / k):
+        w = v + eps * (np.cos(a) * e1 + np.sin(a) * e2)
+        out.append(w / np.linalg.norm(w, axis=1, keepdims=True))
+    return np.stack(out)
+
+
+def near_boundary(nside, v, got, eps):
+    """Is the pixel got[i] reached from the direction v[i] by a displacement of at most ~eps[i] rad? (vectorised; the disc
+    is sampled on rings, densely enough for discs wider than a pixel)"""
+    import healpy as hp
+    import numpy as np
+
+    v = np.asarray(v, dtype=np.float64).reshape(-1, 3)
+    got = np.asarray(got).reshape(-1)
+    eps = np.broadcast_to(np.asarray(eps, dtype=np.float64), got.shape)
+    ok = np.zeros(len(v), dtype=bool)
+    if not len(v):
+        return ok
+    nrings = int(np.clip(np.ceil(4 * eps.max() * nside), 4, 40))
+    for r in np.append(np.arange(1, nrings) / nrings, 1.05):
+        w = displaced(v, r * eps, 16 if nrings == 4 else 64)
+        ok |= (hp.vec2pix(nside, w[..., 0], w[..., 1], w[..., 2]) == got[None, :]).any(axis=0)
+    return ok
+
+
+def unstable(nside, v, eps):
+    """Does the pixel of the direction change under a displacement of eps rad?"""
+    import healpy as hp
+    import numpy as np
+
+    v = np.asarray(v, dtype=np.float64).reshape(-1, 3)
+    p = hp.vec2pix(nside, v[:, 0], v[:, 1], v[:, 2])
+    w = displaced(v, eps)
+    return (hp.vec2pix(nside, w[..., 0], w[..., 1], w[..., 2]) != p[None, :]).any(axis=0)
+
+
+def compare_table(nside, got, v, x64):
+    """Pixel table of the implementation against the reference directions v (same leading shape + (3,)):
+    boolean arrays (mismatch, of which within boundary_eps of a pixel border) and the two reference tables."""
+    import numpy as np
+
+    got = np.asarray(got, dtype=np.int64)
+    exp, exp2 = reference_pixels(nside, v)
+    bad = (got != exp) & (got != exp2)
+    boundary = np.zeros(got.shape, dtype=bool)
+    if bad.any():
+        boundary[bad] = near_boundary(nside, v[bad], got[bad], boundary_eps(x64, v[bad]))
+    return bad, boundary, exp, exp2
+
+
+def implementation_table(nside, theta, phi, pa, det_x, det_y, det_z, dtype='float64'):
     import jax.numpy as jnp
     import numpy as np
 
@@ -231,7 +360,7 @@ def implementation_table(nside, theta, phi, pa, det_x, det_y, det_z):
     from furax.projections import create_projection_operator
     from furax.samplings import Sampling
 
-    land = HealpixLandscape(nside, 'I')
+    land = HealpixLandscape(nside, 'I', np.dtype(dtype))
     samp = Sampling(jnp.asarray(np.asarray(theta, dtype=np.float64)), jnp.asarray(np.asarray(phi, dtype=np.float64)), jnp.asarray(np.asarray(pa, dtype=np.float64)))
     det = DetectorArray(np.asarray(det_x, dtype=np.float64), np.asarray(det_y, dtype=np.float64), float(det_z))
     P = create_projection_operator(land, samp, det)
@@ -241,84 +370,194 @@ def implementation_table(nside, theta, phi, pa, det_x, det_y, det_z):
     return table.reshape(ndet, ndir, len(theta))
 
 
-def near_boundary(nside, v, got, eps=1e-9):
-    """Is the pixel `got` reached from direction v by a displacement of at most ~eps rad?"""
+def special_pixels(nside):
+    npix = 12 * nside * nside
+    ncap = 2 * nside * (nside - 1)
+    cand = [0, 1, 2, 3, ncap - 1, ncap, ncap + 1, npix // 2, npix - ncap - 1, npix - ncap, npix - 4, npix - 1]
+    for k in (24, 25, 26, 27, 28, 29):  # float32 holds integers exactly up to 2**24
+        cand += [2**k - 1, 2**k, 2**k + 1, 2**k + 3, 3 * 2 ** (k - 1) + 1]
+    return sorted({p for p in cand if 0 <= p < npix})
+
+
+def target_directions(nside, pix, rng, mode):
+    """Unit vectors inside the pixels `pix`, on the great arc from the pixel centre towards the centre of an
+    edge-sharing neighbour: mode 'interior' - 30 % of the way (robustly inside); mode 'border' - at DELTAS[k] rad
+    before the point where the arc leaves the pixel (located by bisection with healpy, float64)."""
     import healpy as hp
     import numpy as np
 
-    th, ph = hp.vec2ang(v)
-    th, ph = float(th[0]), float(ph[0])
-    s = max(math.sin(th), 1e-6)
-    for dt in (-eps, 0.0, eps):
-        for dp in (-eps / s, 0.0, eps / s):
-            if int(hp.ang2pix(nside, float(np.clip(th + dt, 0, np.pi)), ph + dp)) == got:
-                return True
-    return False
+    pix = np.asarray(pix, dtype=np.int64)
+    nb = np.asarray(hp.get_all_neighbours(nside, pix))[2 * rng.integers(0, 4, pix.size), np.arange(pix.size)]
+    nb = np.where(nb < 0, (pix + 1) % (12 * nside * nside), nb)
+    a = np.stack(hp.pix2vec(nside, pix), -1)
+    b = np.stack(hp.pix2vec(nside, nb), -1)
+
+    def at(t):
+        w = (1 - t)[:, None] * a + t[:, None] * b
+        return w / np.linalg.norm(w, axis=1, keepdims=True)
+
+    if mode == 'interior':
+        return at(np.full(pix.size, 0.3))
+    lo, hi = np.zeros(pix.size), np.ones(pix.size)
+    for _ in range(60):
+        mid = 0.5 * (lo + hi)
+        w = at(mid)
+        inside = hp.vec2pix(nside, w[:, 0], w[:, 1], w[:, 2]) == pix
+        lo, hi = np.where(inside, mid, lo), np.where(inside, hi, mid)
+    c = at(lo)
+    u = a - (a * c).sum(1, keepdims=True) * c
+    u /= np.linalg.norm(u, axis=1, keepdims=True)
+    delta = np.asarray(DELTAS)[rng.integers(0, len(DELTAS), pix.size)]
+    w = c + delta[:, None] * u
+    return w / np.linalg.norm(w, axis=1, keepdims=True)
 
 
-def pointing_check(nsides, nrandom, seed):
+def solve_pointing(w, d, psi):
+    """(theta, phi) with R_z(phi) R_y(theta) R_z(psi) d = w, theta in [0, pi]; `ok` False where there is none."""
+    import numpy as np
+
+    d1 = np.einsum('tij,tj->ti', _rz(psi), d)
+    amp = np.hypot(d1[:, 0], d1[:, 2])
+    alpha = np.arctan2(d1[:, 0], d1[:, 2])
+    ratio = w[:, 2] / amp
+    ok = np.abs(ratio) <= 1 - 1e-7  # away from the branch point of arccos
+    beta = np.arccos(np.clip(ratio, -1, 1))
+    theta = beta - alpha
+    alt = -beta - alpha
+    theta = np.where((theta >= 0) & (theta <= np.pi), theta, np.where(alt < 0, alt + 2 * np.pi, alt))
+    ok &= (theta >= 0) & (theta <= np.pi)
+    u = np.einsum('tij,tj->ti', _ry(theta), d1)
+    phi = np.arctan2(w[:, 1], w[:, 0]) - np.arctan2(u[:, 1], u[:, 0])
+    return theta, phi, ok
+
+
+def pointing_batch(nside, rng, ndet, ndir, det_z, nrandom, ntarget, x64):
+    """One detector layout (every detector off the boresight axis except detector 0 / direction 0) and one pointing
+    sequence made of the classes random / pole-meridian / pixel-centre / interior / border."""
     import healpy as hp
     import numpy as np
 
-    rng = np.random.default_rng(seed)
-    out = {'per_nside': {}, 'failures': [], 'directions': 0, 'boundary_mismatches': 0}
-    special_theta = [0.0, np.pi, np.pi / 2, 1e-9, np.pi - 1e-9, np.arccos(2 / 3), np.arccos(-2 / 3)]
-    special_phi = [0.0, np.pi / 2, np.pi, 3 * np.pi / 2, 2 * np.pi - 1e-12, np.pi / 4, -np.pi / 3, 7.0]
-    for nside in nsides:
-        stats = {'directions': 0, 'mismatches': 0, 'near_boundary': 0, 'by_class': {}}
-        batches = []
-        for ndir in (1, 3):
-            n = nrandom
-            batches.append(('random', np.arccos(rng.uniform(-1, 1, n)), rng.uniform(0, 2 * np.pi, n), rng.uniform(0, 2 * np.pi, n), ndir))
-        th = np.repeat(special_theta, len(special_phi))
-        ph = np.tile(special_phi, len(special_theta))
-        batches.append(('pole-meridian', th, ph, rng.uniform(0, 2 * np.pi, th.size), 1))
-        batches.append(('pole-meridian', th, ph, np.zeros(th.size), 3))
-        # pixel centres and pixel corners as boresight, detector on the boresight
-        npix = 12 * nside * nside
-        sel = np.arange(npix) if npix <= 768 else rng.integers(0, npix, 768)
-        tc, pc = hp.pix2ang(nside, sel)
-        batches.append(('pixel-centre', tc, pc, rng.uniform(0, 2 * np.pi, tc.size), 1))
-        for name, theta, phi, pa, ndir in batches:
-            ndet = 3
-            if name == 'pixel-centre':
-                det_x = np.zeros((1, 1))
-                det_y = np.zeros((1, 1))
-            else:
-                det_x = rng.uniform(-0.4, 0.4, (ndet, ndir))
-                det_y = rng.uniform(-0.4, 0.4, (ndet, ndir))
-                det_x[0, 0] = det_y[0, 0] = 0.0  # one detector on the boresight
-            got = implementation_table(nside, theta, phi, pa, det_x, det_y, 1.0)
-            v = reference_directions(theta, phi, pa, det_x, det_y, 1.0)
-            exp = hp.vec2pix(nside, v[..., 0], v[..., 1], v[..., 2])
-            exp2 = hp.ang2pix(nside, np.arccos(np.clip(v[..., 2], -1, 1)), np.arctan2(v[..., 1], v[..., 0]))
+    pi = np.pi
+    npix = 12 * nside * nside
+    radius = rng.uniform(0.05, 0.45, (ndet, ndir))
+    angle = rng.uniform(0, 2 * pi, (ndet, ndir))
+    det_x, det_y = det_z * radius * np.cos(angle), det_z * radius * np.sin(angle)
+    det_x[0, 0] = det_y[0, 0] = 0.0
+    d = unit_directions(det_x, det_y, det_z).reshape(-1, 3)
+    th, ph, ps, cls = [], [], [], []
+
+    def add(name, t, p, s):
+        th.append(np.asarray(t, dtype=np.float64))
+        ph.append(np.asarray(p, dtype=np.float64))
+        ps.append(np.asarray(s, dtype=np.float64))
+        cls.extend([name] * len(t))
+
+    def psi(n):  # third Euler angle over (-2 pi, 2 pi): both signs, more than one turn
+        return rng.uniform(-2 * pi, 2 * pi, n)
+
+    add('random', np.arccos(rng.uniform(-1, 1, nrandom)), rng.uniform(-pi, 2 * pi, nrandom), psi(nrandom))
+    special_theta = [0.0, pi, pi / 2, 1e-9, pi - 1e-9, np.arccos(2 / 3), np.arccos(-2 / 3)]
+    special_phi = [0.0, pi / 2, pi, 3 * pi / 2, 2 * pi - 1e-12, pi / 4, -pi / 3, 7.0]
+    t = np.repeat(special_theta, len(special_phi))
+    p = np.tile(special_phi, len(special_theta))
+    add('pole-meridian', t, p, np.where(rng.random(t.size) < 0.25, 0.0, psi(t.size)))
+    sel = np.arange(npix) if npix <= 192 else np.concatenate([special_pixels(nside), rng.integers(0, npix, 192)])
+    tc, pc = hp.pix2ang(nside, sel)
+    add('pixel-centre', tc, pc, psi(sel.size))
+    for mode in ('interior', 'border') if x64 else ('interior',):
+        pix = np.concatenate([special_pixels(nside), rng.integers(0, npix, ntarget)])
+        w = target_directions(nside, pix, rng, mode)
+        s = psi(pix.size)
+        k = np.arange(pix.size) % len(d)  # the detector direction aimed at the target
+        t, p, ok = solve_pointing(w, d[k], s)
+        # no solution for this detector: aim the boresight detector (0, 0) instead
+        t = np.where(ok, t, np.arctan2(np.hypot(w[:, 0], w[:, 1]), w[:, 2]))
+        p = np.where(ok, p, np.arctan2(w[:, 1], w[:, 0]))
+        add(mode, t, p, s)
+    theta, phi, pa = np.concatenate(th), np.concatenate(ph), np.concatenate(ps)
+    if not x64:  # the angles are float32 values: the reference starts from the same inputs as the float32 code
+        theta, phi, pa = (a.astype(np.float32).astype(np.float64) for a in (theta, phi, pa))
+    return theta, phi, pa, det_x, det_y, np.array(cls)
+
+
+def pointing_check(configs, nrandom, ntarget, seed, x64):
+    """configs: [[nside, landscape dtype], ...]; runs in the worker whose x64 mode is `x64`."""
+    import warnings
+
+    import jax
+    import numpy as np
+
+    assert bool(jax.config.jax_enable_x64) == bool(x64), 'x64 mode mismatch'
+    eps = boundary_eps(x64)
+    out = {'per_config': {}, 'failures': [], 'directions': 0, 'boundary_mismatches': 0, 'boundary_eps_rad': eps}
+    for ci, (nside, dtype) in enumerate(configs):
+        rng = np.random.default_rng([seed, nside, ci, int(x64)])
+        stats = {'directions': 0, 'mismatches': 0, 'near_boundary': 0, 'by_class': {}, 'negative_psi': 0, 'off_axis': 0, 'pixels_above_2^24': 0}
+        for ndet, ndir, det_z in ((4, 1, 1.0), (2, 3, 2.0)):
+            theta, phi, pa, det_x, det_y, cls = pointing_batch(nside, rng, ndet, ndir, det_z, nrandom, ntarget, x64)
+            with warnings.catch_warnings():
+                warnings.simplefilter('ignore')
+                try:
+                    got = implementation_table(nside, theta, phi, pa, det_x, det_y, det_z, dtype)
+                except ValueError as e:
+                    if x64 or dtype != 'float64':
+                        raise
+                    stats['rejected'] = f'ValueError: {e}'[:120]  # declared float64 is not available with x64 disabled
+                    break
+                except Exception as e:  # an outcome of the code under test: reported with the first sample as replay
+                    stats['raised'] = f'{type(e).__name__}: {e}'[:200]
+                    c = {'kind': 'pointing', 'nside': int(nside), 'theta': [float(theta[0])], 'phi': [float(phi[0])], 'pa': [float(pa[0])],
+                         'det_x': [[float(det_x[-1, -1])]], 'det_y': [[float(det_y[-1, -1])]], 'det_z': det_z, 'x64': bool(x64), 'dtype': dtype, 'class': str(cls[0])}  # fmt: skip
+                    if len(out['failures']) < 5:
+                        out['failures'].append({'case': c, 'observation': {'error': type(e).__name__, 'msg': str(e)[:200]}, 'key': 'create-projection-operator-raised',
+                                                'oracle': f'create_projection_operator raised {type(e).__name__} ({str(e)[:200]}) for nside={nside}, {dtype} landscape, x64 {"on" if x64 else "off"}, {ndet} detectors x {ndir} directions, {len(theta)} samples'})  # fmt: skip
+                    break
+            v = reference_directions(theta, phi, pa, det_x, det_y, det_z)
+            bad, boundary, exp, exp2 = compare_table(nside, got, v, x64)
             stats['directions'] += int(got.size)
-            bad = np.argwhere((got != exp) & (got != exp2))
-            for d, m, t in bad:
-                stats['mismatches'] += 1
+            stats['negative_psi'] += int((pa < 0).sum()) * (ndet * ndir - 1)
+            stats['off_axis'] += int(got.size) - len(theta)
+            stats['pixels_above_2^24'] += int((exp >= 2**24).sum())
+            if x64:
+                sel = cls == 'border'
+                vb = v[:, :, sel, :].reshape(-1, 3)
+                stats['border_within_1e-7rad'] = stats.get('border_within_1e-7rad', 0) + int((unstable(nside, vb, 1e-7) & ~unstable(nside, vb, EPS64)).sum())
+            stats['mismatches'] += int(bad.sum())
+            stats['near_boundary'] += int((bad & boundary).sum())
+            for i, m, t in np.argwhere(bad & ~boundary):
+                name = str(cls[t])
                 stats['by_class'][name] = stats['by_class'].get(name, 0) + 1
-                if near_boundary(nside, v[d, m, t], int(got[d, m, t])):
-                    stats['near_boundary'] += 1
-                elif len(out['failures']) < 5:
+                if len(out['failures']) < 5 and sum(f['case']['nside'] == nside and f['case']['dtype'] == dtype for f in out['failures']) < 2:
                     c = {'kind': 'pointing', 'nside': int(nside), 'theta': [float(theta[t])], 'phi': [float(phi[t])], 'pa': [float(pa[t])],
-                         'det_x': [[float(det_x[d, m])]], 'det_y': [[float(det_y[d, m])]], 'det_z': 1.0, 'x64': True, 'class': name}  # fmt: skip
-                    out['failures'].append({'case': c, 'observation': {'pix': int(got[d, m, t]), 'healpy_vec2pix': int(exp[d, m, t]), 'healpy_ang2pix': int(exp2[d, m, t])},
-                                            'oracle': f'pixel table entry {int(got[d, m, t])} but the independent Rz.Ry.Rz + healpy computation gives {int(exp[d, m, t])} (nside={nside}, {name}; not within 1e-9 rad of a pixel boundary)', 'key': 'pixel-table-differs-from-independent-pointing'})  # fmt: skip
-        out['per_nside'][str(nside)] = stats
+                         'det_x': [[float(det_x[i, m])]], 'det_y': [[float(det_y[i, m])]], 'det_z': det_z, 'x64': bool(x64), 'dtype': dtype, 'class': name}  # fmt: skip
+                    g, e = int(got[i, m, t]), int(exp[i, m, t])
+                    out['failures'].append({'case': c, 'observation': {'pix': g, 'healpy_vec2pix': e, 'healpy_ang2pix': int(exp2[i, m, t]), 'near_boundary': False},
+                                            'oracle': pointing_message(c, g, e), 'key': 'pixel-table-differs-from-independent-pointing'})  # fmt: skip
+        out['per_config'][f'nside{nside}/{dtype}'] = stats
         out['directions'] += stats['directions']
         out['boundary_mismatches'] += stats['near_boundary']
     return out
 
 
+def pointing_message(case, got, exp):
+    return (
+        f'pixel table entry {got} but the independent Rz(phi).Ry(theta).Rz(psi) + healpy computation (float64) gives {exp}: nside={case["nside"]}, '
+        f'{case.get("dtype", "float64")} landscape, x64 {"on" if case.get("x64", True) else "off"}, psi={case["pa"][0]:.6g}, detector offset '
+        f'({case["det_x"][0][0]:.4g}, {case["det_y"][0][0]:.4g}, {case.get("det_z", 1.0):g}), class {case.get("class")}; not within {boundary_eps(case.get("x64", True)):g} rad of a pixel border'
+    )
+
+
 def pointing_single(case):
-    import healpy as hp
     import numpy as np
 
-    got = implementation_table(case['nside'], case['theta'], case['phi'], case['pa'], case['det_x'], case['det_y'], case['det_z'])
+    try:
+        got = implementation_table(case['nside'], case['theta'], case['phi'], case['pa'], case['det_x'], case['det_y'], case['det_z'], case.get('dtype', 'float64'))
+    except Exception as e:  # an outcome of the code under test
+        return {'error': type(e).__name__, 'msg': str(e)[:200]}
     v = reference_directions(case['theta'], case['phi'], case['pa'], case['det_x'], case['det_y'], case['det_z'])
-    exp = hp.vec2pix(case['nside'], v[..., 0], v[..., 1], v[..., 2])
-    g, e = int(got.ravel()[0]), int(np.ravel(exp)[0])
-    return {'pix': g, 'healpy_vec2pix': e, 'near_boundary': bool(g != e and near_boundary(case['nside'], v.reshape(-1, 3)[0], g))}
+    bad, boundary, exp, exp2 = compare_table(case['nside'], got, v, case.get('x64', True))
+    k = int(np.argmax((bad & ~boundary).ravel())) if bad.any() else 0
+    return {'pix': int(got.ravel()[k]), 'healpy_vec2pix': int(exp.ravel()[k]), 'healpy_ang2pix': int(exp2.ravel()[k]), 'mismatch': bool(bad.ravel()[k]), 'near_boundary': bool(boundary.ravel()[k])}
 
 
 # ----------------------------------------------------------------------------------------------
@@ -344,7 +583,7 @@ def worker_main():
             if req['op'] == 'case':
                 res = {'ok': impl_case(req['case'])}
             elif req['op'] == 'pointing':
-                res = {'ok': pointing_check(req['nsides'], req['nrandom'], req['seed'])}
+                res = {'ok': pointing_check(req['configs'], req['nrandom'], req['ntarget'], req['seed'], req['x64'])}
             else:
                 res = {'err': 'unknown op'}
         except Exception as e:
@@ -463,7 +702,8 @@ class Check(PropertyCheck):
         'that the pixel table pix[d, m, t] is the HEALPix pixel containing the detector direction rotated by '
         'Rz(phi_t).Ry(theta_t).Rz(psi_t): vec2dir (arccos / arctan2 in floating point) and jax_healpy.ang2pix are '
         'outside the model; the theorems hold for an ARBITRARY pixel table and the table is cross-checked numerically '
-        'only, against an independent NumPy rotation + healpy (numerical_tests_not_proof)'
+        'only, against an independent NumPy rotation + healpy: on every acquisition case (oracle) and at scale - nside up to 8192, '
+        'float32/float64 landscapes, both x64 modes, directions a few 1e-9 rad inside pixel borders (numerical_tests_not_proof)'
     )
     trusted = [
         'translator tools/translate/euler.py (Python ast, fail closed): the nine entries of the jnp.array literal of '
@@ -479,6 +719,11 @@ class Check(PropertyCheck):
         'the model of reduce() (Model/Algebra.v, C01/C07) for the reduced skeletons and the multiplicity diagonal',
         'vec2dir, jax_healpy.ang2pix, DetectorArray normalisation (sqrt, division): NOT modelled; the pixel table is an '
         'input of the model',
+        'the pixel-table oracle: NumPy float64 rotations, healpy.vec2pix / ang2pix / pix2vec / get_all_neighbours as the reference '
+        'HEALPix implementation; a differing pixel is attributed to rounding only within 1e-9 rad of the reference direction (x64 '
+        'enabled, any map dtype) or 2e-6 rad + 2**-22 / sin(theta) (x64 disabled: float32 pointing, float32 cos(theta) near the poles); '
+        'with x64 disabled only float32 landscapes are in scope (a declared float64 structure is unavailable there, DESIGN section 7: '
+        'create_projection_operator raises ValueError, recorded in the evidence)',
         'correspondence harness harness/c16.py (case generators, the two printers of one case description, worker protocol, '
         'capture of the acquisition as built by wrapping CompositionOperator.reduce)',
     ]
@@ -488,6 +733,7 @@ class Check(PropertyCheck):
         self._obs = {}
         self._cases = None
         self._prefetched = False
+        self._pointing = None
         self.stats = {'samples_total': 0, 'multi_direction_cases': 0}
 
     # ---- translate -----------------------------------------------------------------------------
@@ -506,11 +752,11 @@ class Check(PropertyCheck):
     def pointing(self, rng, nsamp, style):
         pi = math.pi
         if style == 'exact':  # position angles whose doubled trig values are (nearly) exact
-            pa = [rng.choice([0.0, pi / 4, pi / 2, 3 * pi / 4, pi, -pi / 4, 2 * pi]) for _ in range(nsamp)]
+            pa = [rng.choice([0.0, pi / 4, pi / 2, 3 * pi / 4, pi, -pi / 4, 2 * pi, -pi / 2, -3 * pi / 4, -pi, -2 * pi, 5 * pi / 4]) for _ in range(nsamp)]
         elif style == 'pythagorean':  # cos 2pa = 3/5, sin 2pa = 4/5 and relatives
             pa = [rng.choice([1, -1]) * math.atan2(*rng.choice([(4, 3), (3, 4), (5, 12), (24, 7)])) / 2 for _ in range(nsamp)]
         else:
-            pa = [rng.uniform(-pi, 2 * pi) for _ in range(nsamp)]
+            pa = [rng.uniform(-2 * pi, 2 * pi) for _ in range(nsamp)]  # both signs, more than one turn
         if style == 'same-pixel':
             th, ph = math.acos(rng.uniform(-0.9, 0.9)), rng.uniform(0, 2 * pi)
             theta, phi = [th] * nsamp, [ph] * nsamp
@@ -527,9 +773,10 @@ class Check(PropertyCheck):
         spread = 0.02 if style == 'same-pixel' and nside <= 2 else 0.5
         det_x = [[round(rng.uniform(-spread, spread), 3) for _ in range(ndir)] for _ in range(ndet)]
         det_y = [[round(rng.uniform(-spread, spread), 3) for _ in range(ndir)] for _ in range(ndet)]
-        det_x[0][0] = det_y[0][0] = 0.0
+        if rng.random() < 0.5:  # one detector on the boresight axis (where the third Euler angle is invisible) in half of the cases
+            det_x[0][0] = det_y[0][0] = 0.0
         c = {'kind': 'acq', 'nside': nside, 'stokes': stokes, 'ndet': ndet, 'ndir': ndir, 'style': style, 'theta': theta, 'phi': phi, 'pa': pa,
-             'det_x': det_x, 'det_y': det_y, 'det_z': 1.0, 'x64': True, 'dtype': 'float64', 'dense': nside <= 2}  # fmt: skip
+             'det_x': det_x, 'det_y': det_y, 'det_z': rng.choice([1.0, 1.0, 2.0, 0.5]), 'x64': True, 'dtype': 'float64', 'dense': nside <= 2}  # fmt: skip
         c.update(kw)
         return c
 
@@ -558,6 +805,9 @@ class Check(PropertyCheck):
         for stokes in ('IQU',) if quick else ('QU', 'IQU', 'IQUV'):
             cases.append(self.one_case(rng, 1, stokes, 2, 1, 3, 'exact', x64=False, dtype='float32'))
             cases.append(self.one_case(rng, 2, stokes, 2, 2, 4, 'generic', x64=False, dtype='float32'))
+        # float32 landscape with x64 enabled (single-precision maps, double-precision pointing)
+        for stokes in ('IQU', 'I') if quick else STOKES:
+            cases.append(self.one_case(rng, 4 if stokes == 'IQU' else 2, stokes, 2, 2 if stokes == 'I' else 1, 5, 'generic', dtype='float32'))
         self._cases = cases
         return cases
 
@@ -568,9 +818,12 @@ class Check(PropertyCheck):
     def rule(self):
         return (
             'acq: nside {1,2,4} x Stokes {I,QU,IQU,IQUV} x directions per detector {1,2,3} (quick: a subset), detectors '
-            '1-3, samples 1-6, pointing styles {position angles k*pi/4, Pythagorean doubled angles, generic, every sample '
+            '1-3 (off the boresight axis; one on it in half of the cases; detector plane z in {0.5,1,2}), samples 1-6, pointing styles '
+            '{position angles k*pi/4 of both signs, Pythagorean doubled angles, generic psi in (-2pi,2pi), every sample '
             'in one pixel, polar boresight}, + seeded random cases, + FrequencyLandscape (2-d map: Ravel kept), + float32 '
-            'landscapes with x64 disabled; integer sky maps of distinct primes. Distinct by canonical JSON of the case.'
+            'landscapes with x64 disabled, + float32 landscapes with x64 enabled; integer sky maps of distinct primes; every pixel '
+            'table also compared with the independent float64 pointing model. Distinct by canonical JSON of the case. '
+            'pointing (extra): see numerical_tests_not_proof.note.'
         )
 
     def nontrivial(self, case, obs):
@@ -579,7 +832,7 @@ class Check(PropertyCheck):
     def distribution(self, cases):
         d = {}
         for c in cases:
-            key = f'{c["kind"]}/nside{c["nside"]}/{c["stokes"]}/ndir{c.get("ndir", 1)}' + ('' if c.get('x64', True) else '/x32') + ('/freq' if c.get('land') == 'frequency' else '')
+            key = f'{c["kind"]}/nside{c["nside"]}/{c["stokes"]}/ndir{c.get("ndir", 1)}' + ('' if c.get('dtype', 'float64') == 'float64' else '/' + c['dtype']) + ('' if c.get('x64', True) else '/x64-off') + ('/freq' if c.get('land') == 'frequency' else '')
             d[key] = d.get(key, 0) + 1
         return d
 
@@ -589,6 +842,8 @@ class Check(PropertyCheck):
         from concurrent.futures import ThreadPoolExecutor
 
         todo = [c for c in cases if lib.case_id(c) not in self._obs]
+        if self._cases:  # not on a replay
+            self.start_pointing()
 
         def run(slot):
             for c in todo[slot::NSLOTS]:
@@ -709,13 +964,15 @@ class Check(PropertyCheck):
 
         obs = unfrac(obs)
         if case['kind'] == 'pointing':
-            if obs['pix'] != obs['healpy_vec2pix'] and not obs.get('near_boundary'):
-                return f'pixel table entry {obs["pix"]} but the independent Rz.Ry.Rz + healpy computation gives {obs["healpy_vec2pix"]}'
+            if 'error' in obs:
+                return f'create_projection_operator raised {obs["error"]} ({obs.get("msg", "")}) for nside={case["nside"]}, {case.get("dtype", "float64")} landscape, x64 {"on" if case.get("x64", True) else "off"}'
+            if obs.get('mismatch', obs['pix'] != obs['healpy_vec2pix']) and not obs.get('near_boundary'):
+                return pointing_message(case, obs['pix'], obs['healpy_vec2pix'])
             return None
         ndet, ndir, nsamp = len(case['det_x']), len(case['det_x'][0]), len(case['pa'])
         self.stats['samples_total'] += ndet * ndir * nsamp
         self.stats['multi_direction_cases'] += ndir > 1
-        what = f'nside={case["nside"]} stokes={case["stokes"]} ndet={ndet} ndir={ndir} nsamp={nsamp}' + ('' if case.get('x64', True) else ' float32/x64-off')
+        what = f'nside={case["nside"]} stokes={case["stokes"]} ndet={ndet} ndir={ndir} nsamp={nsamp} {case.get("dtype", "float64")} landscape' + ('' if case.get('x64', True) else ', x64 off')
         if 'error' in obs:
             return f'{obs.get("where")} raised {obs["error"]} ({obs.get("msg", "")}) for {what}'
         n = map_size(case)
@@ -725,6 +982,17 @@ class Check(PropertyCheck):
             return f'pixel table has {len(pix)} entries for {what}'
         if min(pix) < 0 or max(pix) >= npix:
             return f'pixel table entry outside 0..{npix - 1}: {min(pix)}..{max(pix)}'
+        if 'ref_pix' not in obs:
+            return f'pixel table of {len(pix)} entries cannot be compared with the independent pointing model for {what}'
+        if obs['pix_mismatch']:
+            k = obs['pix_mismatch'][0]
+            d, m, t = k // (ndir * nsamp), (k // nsamp) % ndir, k % nsamp
+            return (
+                f'pixel table entry [detector {d}, direction {m}, sample {t}] = {pix[k]} but the independent Rz(phi).Ry(theta).Rz(psi) + healpy '
+                f'computation gives pixel {obs["ref_pix"][k]} (theta={case["theta"][t]:.6g}, phi={case["phi"][t]:.6g}, psi={case["pa"][t]:.6g}, detector offset '
+                f'({case["det_x"][d][m]}, {case["det_y"][d][m]}, {case.get("det_z", 1.0)}); {len(obs["pix_mismatch"])} of {len(pix)} entries differ, none within '
+                f'{boundary_eps(case.get("x64", True)):g} rad of a pixel border) for {what}'
+            )
         shape = [ndet, nsamp] if ndir == 1 else [ndet, ndir, nsamp]
         if obs['tod_shape'] != shape or any(s != shape for s in obs['proj_shape']) or obs['acq_shape'] != shape:
             return f'time-ordered shapes {obs["tod_shape"]} / {obs["proj_shape"]} / {obs["acq_shape"]}, expected {shape} for {what}'
@@ -743,7 +1011,7 @@ class Check(PropertyCheck):
                 return f'{"acquisition as built" if name == "acq_built" else "reduced acquisition"}: {d} (implementation vs (I + Q cos 2psi - U sin 2psi)/2 at the pixel) for {what}'
         for name in ('H_built', 'H'):
             if name in obs:
-                d = first_diff(obs[name], H, 1e-9 if case.get('x64', True) else 1e-5)
+                d = first_diff(obs[name], H, rtol(case))
                 if d:
                     return f'dense matrix of the {"acquisition as built" if name == "H_built" else "reduced acquisition"}: {d} for {what}'
         for name in ('ptp', 'ptp_red'):
@@ -751,7 +1019,7 @@ class Check(PropertyCheck):
                 d = first_diff(obs[name][ci], hits * np.array(sky[ci], dtype=np.float64), tol * max(1.0, hits.max()))
                 if d:
                     return f'{"P.T @ P" if name == "ptp" else "reduce(P.T @ P)"} applied to the map, component {k}: {d} (implementation vs hit count x map) for {what}'
-        mtol = 1e-9 if case.get('x64', True) else 1e-5
+        mtol = rtol(case)
         for dn, on, label in (('ptp_diag', 'ptp_offdiag', '(P.T @ P).reduce().as_matrix()'), ('ptp_built_diag', 'ptp_built_offdiag', '(P.T @ P).as_matrix()')):
             if dn in obs:
                 d = first_diff(obs[dn], np.tile(hits, len(case['stokes'])), mtol * max(1.0, hits.max()))
@@ -766,6 +1034,10 @@ class Check(PropertyCheck):
             if len(case['det_x'][0]) > 1:
                 return 'acquisition-several-directions-per-detector-structure-mismatch'
             return 'acquisition-tod-dtype-structure-mismatch'
+        if isinstance(obs, dict) and obs.get('where') == 'P.T @ P' and obs.get('error') == 'TypeError' and case.get('dtype') == 'float32' and case.get('x64', True):
+            return 'float32-map-float64-angles-unreduced-transpose-TypeError'
+        if isinstance(obs, dict) and obs.get('pix_mismatch'):
+            return 'pixel-table-differs-from-independent-pointing'
         return case.get('key')
 
     def shrink(self, case, failing):
@@ -798,17 +1070,58 @@ class Check(PropertyCheck):
         return cur
 
     # ---- partial clause: numerical testing only ------------------------------------------------
-    def extra(self):
+    def pointing_requests(self):
+        """(x64 mode, worker slot, request) of the numerical pointing cross-check; nside up to 8192 (pixel numbers above 2**24 from
+        nside 2048), float32 and float64 landscapes, in both x64 modes."""
         quick = self.tier == 'quick'
-        res = ask(True, {'op': 'pointing', 'nsides': [1, 2, 4, 8, 16, 64], 'nrandom': 300 if quick else 3000, 'seed': self.seed})
-        return {
-            'pointing_vs_numpy_healpy_x64': {k: v for k, v in res.items() if k != 'failures'},
-            'note': 'pixel table of create_projection_operator vs independent NumPy Rz(phi).Ry(theta).Rz(pa) applied to the '
-            'normalised detector directions + healpy.vec2pix / ang2pix (ring ordering); 3 detectors x {1,3} directions, random / '
-            'pole / meridian / cap-boundary boresights, every pixel centre (nside <= 8); a mismatch within 1e-9 rad of a pixel '
-            'boundary is counted under near_boundary, not as a failure',
-            'failures': res['failures'],
+        both = lambda nsides: [[n, dt] for n in nsides for dt in ('float32', 'float64')]  # noqa: E731
+        nrandom, ntarget = (300, 150) if quick else (3000, 1500)
+        parts = {
+            (True, 10): [[n, 'float64'] for n in (1, 2, 4, 8, 16, 64)] + both((256, 8192) if quick else (32, 256, 4096)),
+            (True, 11): [[n, 'float32'] for n in (1, 4, 64)] + both((1024, 2048) if quick else (1024, 2048, 8192)),
+            # x64 disabled: float32 landscapes (a structure that declares float64 cannot be matched by any array in this mode - DESIGN
+            # section 7 - and create_projection_operator rejects it: recorded for one configuration, not a failure)
+            (False, 10): [[n, 'float32'] for n in ((1, 64, 2048) if quick else (1, 4, 64, 256, 2048))] + [[4, 'float64']],
+            (False, 11): [[n, 'float32'] for n in ((1024, 8192) if quick else (16, 1024, 4096, 8192))],
         }
+        return [(x64, slot, {'op': 'pointing', 'configs': cfg, 'nrandom': nrandom, 'ntarget': ntarget, 'seed': self.seed, 'x64': x64}) for (x64, slot), cfg in parts.items()]
+
+    def start_pointing(self):
+        """The cross-check runs on its own worker processes, concurrently with the acquisition cases and the model evaluation."""
+        from concurrent.futures import ThreadPoolExecutor
+
+        if self._pointing is None:
+            ex = ThreadPoolExecutor(max_workers=4)
+            self._pointing = [(x64, ex.submit(ask, x64, req, slot)) for x64, slot, req in self.pointing_requests()]
+            ex.shutdown(wait=False)
+
+    def extra(self):
+        self.start_pointing()
+        out = {'failures': []}
+        for x64 in (True, False):
+            merged = {'per_config': {}, 'directions': 0, 'boundary_mismatches': 0}
+            for mode, fut in self._pointing:
+                if mode != x64:
+                    continue
+                res = fut.result()
+                merged['per_config'].update(res['per_config'])
+                merged['directions'] += res['directions']
+                merged['boundary_mismatches'] += res['boundary_mismatches']
+                merged['boundary_eps_rad'] = res['boundary_eps_rad']
+                out['failures'] += res['failures']
+            out['pointing_vs_numpy_healpy_x64' if x64 else 'pointing_vs_numpy_healpy_x64_off'] = merged
+        out['failures'] = out['failures'][:5]
+        out['note'] = (
+            'pixel table of create_projection_operator vs independent float64 NumPy Rz(phi).Ry(theta).Rz(psi) (product of the three elementary '
+            'rotations) applied to the normalised detector directions + healpy.vec2pix / ang2pix (ring ordering). Per configuration (nside, landscape '
+            'dtype, x64 mode): layouts 4 detectors x 1 direction and 2 x 3, every direction off the boresight axis except one; psi over (-2 pi, 2 pi), '
+            'phi over (-pi, 2 pi), theta over [0, pi]; classes random / pole, meridian, cap-border boresights / pixel centres (all of them for nside <= 4, '
+            'else special pixel numbers around 2**24..2**29 and random ones) / interior (a chosen off-axis detector aimed 30 % of the way from a pixel '
+            f'centre to a neighbour) / border (x64 only: aimed {DELTAS} rad inside a pixel border located by bisection). A mismatch is a failure unless the '
+            f"implementation's pixel is within {EPS64:g} rad (x64; float64 pointing whatever the map dtype) or {EPS32:g} rad (x64 off: float32 pointing, angles "
+            'given as float32 values) of the reference direction; those are counted under near_boundary'
+        )
+        return out
 
 
 if __name__ == '__main__':
